@@ -661,15 +661,20 @@ fn free_running_tile_sample(dir: &Path, kind: &str, big: bool) -> (u64, u64, Opt
 		for &(z, x, y, len) in &coords {
 			tiles.insert((z, x, y), tile_payload(z, x, y, len));
 		}
-		let mut src = MemSource::new("mem", tiles, TileFormat::BIN, TileCompression::Uncompressed);
-		let rt = vcommon::memsource::runtime(2);
-		rt.block_on(async {
-			match kind {
-				"versatiles" => VersaTilesWriter::write_to_path(&mut src, &path).await.unwrap(),
-				"pmtiles" => PMTilesWriter::write_to_path(&mut src, &path).await.unwrap(),
-				_ => TarTilesWriter::write_to_path(&mut src, &path).await.unwrap(),
-			}
-		});
+		if kind == "pmleaf" {
+			let l = vcommon::codec::PmLayout { internal_gzip: true, run_lengths: false, share_offsets: false, leaf_levels: 1, leaf_size: 16, clustered: true, data_reversed: false };
+			std::fs::write(&path, vcommon::codec::pm_encode(&tiles, 0, 1, b"{}", l)).unwrap();
+		} else {
+			let mut src = MemSource::new("mem", tiles, TileFormat::BIN, TileCompression::Uncompressed);
+			let rt = vcommon::memsource::runtime(2);
+			rt.block_on(async {
+				match kind {
+					"versatiles" => VersaTilesWriter::write_to_path(&mut src, &path).await.unwrap(),
+					"pmtiles" => PMTilesWriter::write_to_path(&mut src, &path).await.unwrap(),
+					_ => TarTilesWriter::write_to_path(&mut src, &path).await.unwrap(),
+				}
+			});
+		}
 	} else {
 		let _ = tile_scenario(dir, kind, "free", vec![vec![]], None);
 	}
@@ -695,6 +700,28 @@ fn free_running_tile_sample(dir: &Path, kind: &str, big: bool) -> (u64, u64, Opt
 				}
 			}
 			let _done = Done(finished);
+			if big && t == 0 {
+				// one caller consumes box streams of the whole level while the others look tiles up
+				let rt = tokio::runtime::Builder::new_current_thread().build().unwrap();
+				for _ in 0..6 {
+					let bbox = versatiles_core::types::TileBBox::new(9, 0, 0, 511, 30).unwrap();
+					let items = std::panic::catch_unwind(std::panic::AssertUnwindSafe(|| rt.block_on(async { reader.get_bbox_tile_stream(bbox).await.collect().await }))).unwrap_or_default();
+					let mut wrong = items.len() != coords.len();
+					for (c, b) in &items {
+						let want = coords.iter().find(|k| (k.0, k.1, k.2) == (c.z, c.x, c.y)).map(|k| tile_payload(k.0, k.1, k.2, k.3));
+						wrong |= want.as_deref() != Some(b.as_slice());
+					}
+					total.fetch_add(1, Ordering::Relaxed);
+					if wrong {
+						mism.fetch_add(1, Ordering::Relaxed);
+						let mut f = first.lock().unwrap();
+						if f.is_none() {
+							*f = Some(format!("a box stream consumed next to concurrent lookups delivered {} tiles of which some carry another coordinate's bytes (or tiles are missing)", items.len()));
+						}
+					}
+				}
+				return;
+			}
 			let rt = tokio::runtime::Builder::new_current_thread().build().unwrap();
 			for i in 0..(if big { 1500usize } else { 300 }) {
 				let (z, x, y, len) = coords[(t * 53 + i * (2 * t + 1)) % coords.len()];
@@ -820,7 +847,7 @@ fn run(ctx: &Ctx) {
 	let (total, mism) = free_running_sample(&dir);
 	ctx.extra("free_running_sample", json!({"note": "supplementary labelled sample, 16 uncontrolled OS threads x 300 read_range calls; a mismatch is reported (sound), silence proves nothing", "calls": total, "mismatches": mism}));
 	let mut tile_samples = vec![];
-	for (kind, big) in [("versatiles", false), ("pmtiles", false), ("pmleaf", false), ("tar", false), ("versatiles", true), ("pmtiles", true), ("tar", true)] {
+	for (kind, big) in [("versatiles", false), ("pmtiles", false), ("pmleaf", false), ("tar", false), ("versatiles", true), ("pmtiles", true), ("pmleaf", true), ("tar", true)] {
 		let (calls, mism, first) = free_running_tile_sample(&dir, kind, big);
 		tile_samples.push(json!({"container": kind, "tiles": if big { 600 } else { 6 }, "calls": calls, "mismatches": mism}));
 		if let Some(f) = first {
